@@ -85,6 +85,33 @@ def rand_soup(rng, n, io=True):
     return prog
 
 
+def retjump_soup(rng, n):
+    """label / conditional jump / conditional return stress.  One work stack holding 0s and 5s: a `?`
+    against count 3 pops one of them, so the values spell the path; prints of fresh letters make the
+    path visible.  Typical paths: call, return, fall on, return again (with the same pending target)."""
+    prog = [C(0, 1, rng.choice([0, 0, 0, 5])) for _ in range(rng.randint(6, 12))]
+    letters = iter(range(65, 91))
+    hearts = [7, 7, 5]
+    for _ in range(n):
+        r = rng.random()
+        hh = rng.choice(hearts)
+        if r < 0.18:
+            prog.append(C(1, 1, 3, H(hh)))                        # label (first time) / jump (later)
+        elif r < 0.40:
+            prog.append(C(1, 1, 3, [63] + H(hh) + NIL))           # conditional jump
+        elif r < 0.65:
+            prog.append(C(1, 1, 3, [63] + H(13) + NIL))           # conditional return
+        elif r < 0.73:
+            prog.append(C(1, 1, 3, H(13)))                        # return
+        elif r < 0.78:
+            prog.append(C(1, 1, 3, [33] + H(hh) + H(13)))
+        elif r < 0.93:
+            prog += [C(0, next(letters, 90), 1), C(1, 1, 1)]      # print a fresh letter
+        else:
+            prog.append(C(0, 1, rng.choice([0, 5])))
+    return prog
+
+
 def mutate(rng, prog):
     p = [dict(c) for c in prog]
     i = rng.randrange(len(p))
@@ -143,10 +170,14 @@ def gen_cases(rng, n, flavor="mixed"):
             p, inp = mutate(rng, base), (bi if rng.random() < 0.7 else inp)
         elif r < 0.85:
             p = one_to_n(rng.choice([2, 4, 6, 10, 20, 50, 96, 104, 200]))
-        elif r < 0.93:
+        elif r < 0.89:
             p = rand_soup(rng, rng.randint(1, 4)) + infinite_a() + rand_soup(rng, rng.randint(0, 3))
+        elif r < 0.94:
+            p = retjump_soup(rng, rng.randint(5, 12))
         else:
             p = CAT_LOOP if rng.random() < 0.5 else cat_n(rng.randint(1, 6))
+            if rng.random() < 0.3:
+                p = rand_soup(rng, 2, io=False) + p
             inp = "".join(rng.choice("ab가\n\U0001F600 ") for _ in range(rng.randint(0, 12)))
         if flavor == "noio":
             inp = ""
